@@ -411,6 +411,10 @@ fn scenario_pairs() -> Vec<(&'static str, &'static str, &'static str)> {
         ("reuse-position-with-unit", r##"<svg><specs><rect id="t" wh="$s"/></specs><reuse href="#t" s="3" x="1cm" y="2cm"/></svg>"##, r##"<svg><rect wh="3" x="1cm" y="2cm" class="t"/></svg>"##),
         ("reuse-position-with-percent", r##"<svg><specs><rect id="t" wh="$s"/></specs><reuse href="#t" s="3" x="10%" y="20"/></svg>"##, r##"<svg><rect wh="3" x="10%" y="20" class="t"/></svg>"##),
         ("template-own-style-kept/shape", r##"<svg><specs><rect id="t" style="fill:red" wh="$s"/></specs><reuse href="#t" s="3" style="stroke:blue"/></svg>"##, r##"<svg><rect style="fill:red; stroke:blue" wh="3" class="t"/></svg>"##),
+        // seventh round (seed C18d): the reuse element's style is appended also when its text occurs inside the template's
+        ("reuse-style-substring-of-template-style/shape", r##"<svg><specs><rect id="t" style="stroke-width:10" wh="$s"/></specs><reuse href="#t" s="3" style="stroke-width:1"/><reuse href="#t" s="3" style="stroke-width:3"/></svg>"##, r##"<svg><rect style="stroke-width:10; stroke-width:1" wh="3" class="t"/><rect style="stroke-width:10; stroke-width:3" wh="3" class="t"/></svg>"##),
+        ("reuse-style-substring-of-template-style/group", r##"<svg><specs><g id="t" style="fill:redwood"><rect wh="$s"/></g></specs><reuse href="#t" s="3" style="fill:red"/></svg>"##, r##"<svg><g style="fill:redwood; fill:red" class="t"><rect wh="3"/></g></svg>"##),
+        ("reuse-style-equal-to-template-style/shape", r##"<svg><specs><rect id="t" style="fill:red" wh="$s"/></specs><reuse href="#t" s="3" style="fill:red"/></svg>"##, r##"<svg><rect style="fill:red; fill:red" wh="3" class="t"/></svg>"##),
         ("template-own-style-kept/group", r##"<svg><specs><g id="t" style="opacity:0.5"><rect wh="$s"/></g></specs><reuse href="#t" s="3" style="stroke:blue"/></svg>"##, r##"<svg><g style="opacity:0.5; stroke:blue" class="t"><rect wh="3"/></g></svg>"##),
         ("relative-placement-of-parameterised-template/h", r##"<svg><specs><rect id="t" wh="$s"/></specs><rect id="o" wh="2"/><reuse href="#t" s="2" xy="#o|h 1"/></svg>"##, r##"<svg><rect id="o" wh="2"/><rect wh="2" xy="#o|h 1" class="t"/></svg>"##),
         ("group-template-local-variables-placed", r##"<svg><specs><g id="dot" r="2" width="5"><circle r="$r" cxy="$c"/><rect wh="$width"/></g></specs><reuse href="#dot" c="0" x="10"/></svg>"##, r##"<svg><g r="2" width="5" transform="translate(10, 0)" class="dot"><circle r="2" cxy="0"/><rect wh="5"/></g></svg>"##),
@@ -473,7 +477,7 @@ pub fn run(tier: Tier) -> i32 {
         }
     }
     rep.set("rule", json!("Templates: 11 (rect with variable size and class, rect with text and rx, circle, text, polyline, line, rect with transform, group with two children, group with text and class variable, symbol, group containing a nested reuse) parameterised by $s/$label/$c in geometry, text and class; placement of the template in <specs>, <defs>, inline before, or in <specs> after its uses; instantiation sequences of length 1-2 (thorough 3) from a pool of 12 reuse forms (bindings, id, class list, style, x/y, single x, relative xy, zero x/y, attribute override, extra transform). The twin replaces each <reuse> by the template written out by hand: bound variables substituted, id/style from the reuse, classes = template + reuse + template id, x/y on shapes or translate on groups, symbol -> g, nested reuse inlined; a <specs> template is dropped from the twin altogether. Both documents are executed; canonical whitespace-insensitive event streams (class as a set, pure translations summed) must be equal, and no <specs>/<reuse> may be rendered. Non-trivial = both Ok and equal."));
-    rep.set("also_later", json!("Rounds 3-5 added pairs: placed templates with dw / dh, defaults chosen by the instance's classes, instances with content evaluated once, group templates with local variables, template text content (shape, text, with <title>), dx / dy on the reuse of a rendered group, x / y in units."));
+    rep.set("also_later", json!("Rounds 3-5 added pairs: placed templates with dw / dh, defaults chosen by the instance's classes, instances with content evaluated once, group templates with local variables, template text content (shape, text, with <title>), dx / dy on the reuse of a rendered group, x / y in units. Round 7 (seed C18d) added pairs where the reuse element's style text occurs inside, or equals, the template's own style."));
     rep.set("also", json!("Also 7 hand-written (reuse, written-out) pairs: templates carrying their own dw / dh or centre, a line template given by end points, a <text> template, reuse of a reuse (placed, and inside <specs>), <defaults> applying to an instance."));
     let st = run_space(cases.len(), |i| {
         let (ti, pl, si) = cases[i];
